@@ -22,15 +22,51 @@ package modfile
 //@   ensures forall l *Line :: l != line ==> l.Token == old(l.Token)
 //@   props C15 C08 C16
 
-//@ # addLine and Cleanup restructure the statement list; their effect on the typed lists is only through the
-//@ # lines they return / keep.  Bodies are not verified yet (trusted summaries).
+//@ # ---------- addLine: statement-list surgery ----------
+//@ # The body relies on the shape of the syntax tree that the parser builds and every edit keeps: line statements are
+//@ # non-nil and have no tokens (removed) or at least one; block statements are non-nil, have a verb token and no nil
+//@ # lines.  This representation invariant is assumed on entry (not checked at the call sites, listed in evidence).
+//@ spec macro ADDLINE_WF(e Expr) bool =
+//@     (ISLINE(e) ==> ifaceptr(e) != 0 && (ifaceptr(e, "*Line").Token == nil || len(ifaceptr(e, "*Line").Token) >= 1))
+//@     && (ISBLOCK(e) ==> ifaceptr(e) != 0 && len(ifaceptr(e, "*LineBlock").Token) >= 1 && (forall j int :: 0 <= j && j < len(ifaceptr(e, "*LineBlock").Line) ==> ifaceptr(e, "*LineBlock").Line[j] != nil))
+//@ # newLineAfter(i): a fresh top-level line with all the tokens, placed right after statement i; everything else keeps
+//@ # its place or moves up by one
+//@ func (*FileSyntax).addLine$1
+//@   requires x != nil && 0 <= i && i <= len(x.Stmt) && i + 1 <= len(x.Stmt) + 1
+//@   modifies FileSyntax.Stmt, []Expr
+//@   allocates
+//@   ensures result != nil && fresh(result) && result.Token == tokens && !result.InBlock
+//@   ensures [C08] inserted_after: len(x.Stmt) == old(len(x.Stmt)) + 1 && (forall k int {x.Stmt[k]} :: 0 <= k && k <= i && k < old(len(x.Stmt)) ==> x.Stmt[k] == old(x.Stmt[k]))
+//@   ensures [C08] the_new_line: (i < old(len(x.Stmt)) ==> ISLINE(x.Stmt[i+1]) && ifaceptr(x.Stmt[i+1]) == result) && (i == old(len(x.Stmt)) ==> ISLINE(x.Stmt[i]) && ifaceptr(x.Stmt[i]) == result)
+//@   ensures [C08] rest_moved_up: forall k int {x.Stmt[k]} :: i + 1 < k && k < len(x.Stmt) ==> x.Stmt[k] == old(x.Stmt[k-1])
+//@   props C15 C08 C16
 //@ func (*FileSyntax).addLine
-//@   trusted "statement-list surgery (type switches over Expr, in-place block conversion); summary of its documented effect"
 //@   requires x != nil && len(tokens) >= 1
+//@   requires_assumed "representation invariant of the syntax tree (built by the parser, kept by the edit operations); not re-established at every call site" forall k int :: 0 <= k && k < len(x.Stmt) ==> ADDLINE_WF(x.Stmt[k])
 //@   modifies FileSyntax.Stmt, []Expr, LineBlock.Line, LineBlock.Token, []*Line, Line.Token, Line.InBlock, ghost.SORTED
 //@   allocates
 //@   ensures result != nil && fresh(result)
 //@   ensures result.Token == (if result.InBlock then tokens[1:] else tokens)
+//@   # a line that becomes the first line of a new block is marked as in a block and keeps its non-verb tokens; the new
+//@   # line follows it
+//@   ensures site 1 [C08] line_becomes_block: stmt.InBlock && result.InBlock && len(block.Line) == 2 && block.Line[0] == stmt && block.Line[1] == result && ISBLOCK(x.Stmt[i]) && ifaceptr(x.Stmt[i]) == block
+//@   # insertion inside a block: the lines up to the hint keep their place, the new line follows the hint, the rest move up
+//@   ensures site 5 [C08] inserted_in_block: result.InBlock && len(stmt.Line) == old(len(stmt.Line)) + 1 && stmt.Line[j+1] == result
+//@   ensures site 5 [C08] block_lines_before_kept: forall k int {stmt.Line[k]} :: 0 <= k && k <= j ==> stmt.Line[k] == old(stmt.Line[k])
+//@   ensures site 5 [C08] block_lines_after_moved_up: forall k int {stmt.Line[k]} :: j + 1 < k && k < len(stmt.Line) ==> stmt.Line[k] == old(stmt.Line[k-1])
+//@   loop 0:
+//@     invariant 0 - 1 <= i && i < len(x.Stmt) && x.Stmt == pre(x.Stmt)
+//@     decreases i + 1
+//@   loop 1:
+//@     invariant 0 - 1 <= @idx && @idx < len(x.Stmt) && x.Stmt == pre(x.Stmt) && hint != nil
+//@     invariant (forall b *LineBlock {b.Line} :: b.Line == old(b.Line)) && (forall k int :: 0 <= k && k < len(x.Stmt) ==> ADDLINE_WF(x.Stmt[k]))
+//@     invariant forall b *LineBlock, k int {b.Line[k]} :: 0 <= k && k < len(b.Line) ==> b.Line[k] == old(b.Line[k])
+//@     decreases len(x.Stmt) - @idx
+//@   loop 2:
+//@     invariant 0 - 1 <= @idx && @idx < len(stmt.Line) && stmt != nil && stmt.Line == pre(stmt.Line) && hint != nil
+//@     invariant (forall b *LineBlock {b.Line} :: b.Line == old(b.Line)) && (forall k int :: 0 <= k && k < len(x.Stmt) ==> ADDLINE_WF(x.Stmt[k]))
+//@     invariant forall b *LineBlock, k int {b.Line[k]} :: 0 <= k && k < len(b.Line) ==> b.Line[k] == old(b.Line[k])
+//@     decreases len(stmt.Line) - @idx
 //@   props C15 C08 C16
 
 //@ # statement-list compaction.  Verified: no crash on a well-formed statement list, and every top-level
